@@ -297,6 +297,7 @@ func (p Statements) PrettyPrint(ps *PrintState) *PrintState {
 	}
 	ps.IndentLevel++
 	ps.ExpressionPrecedence = LOWEST
+	ps.prev = nil // the last statement of a previous block says nothing about how this block starts.
 	var i int
 	for _, s := range p.Statements {
 		if ps.Compact {
